@@ -42,7 +42,7 @@ def body_hist(cube, **kw):
         nodes = add_nodes(g, ['or', 'and', 'or'])
         atts = []
         for ai in range(NA):
-            a = Attacker(name='att%d' % ai)
+            a = Attacker(name='att')       # same name: only identity tells them apart
             g.add_attacker(a)
             atts.append(a)
     present = [True] * NA
@@ -90,7 +90,8 @@ def body_hist(cube, **kw):
 
 
 EPS = [[], [(0, ['a'])], [(0, ['a', 'nosuchstep']), (1, ['c'])], [(1, ['b', 'c']), (0, ['d'])], [(0, ['nosuchstep'])],
-       [(0, ['nosuchstep', 'a', 'c']), (1, ['nosuchstep', 'b'])]]
+       [(0, ['nosuchstep', 'a', 'c']), (1, ['nosuchstep', 'b'])],
+       [(0, ['a', 'a']), (0, ['c', 'a'])]]      # the same (asset, step) named twice, set directly on the attachment
 
 
 def body_attach(cube, **kw):
@@ -114,10 +115,13 @@ def body_attach(cube, **kw):
                 continue
             t = AttackerAttachment(name='att%d' % k)
             m.add_attacker(t)
-            for (ai, steps) in EPS[e]:
-                for st in steps:
-                    t.add_entry_point(A[ai], st)
-            want.append(('att%d' % k, sorted('%s:%s' % (A[ai].name, st) for (ai, steps) in EPS[e] for st in steps if st != 'nosuchstep')))
+            if e == len(EPS) - 1:
+                t.entry_points = [(A[ai], list(steps)) for (ai, steps) in EPS[e]]
+            else:
+                for (ai, steps) in EPS[e]:
+                    for st in steps:
+                        t.add_entry_point(A[ai], st)
+            want.append(('att%d' % k, sorted(set('%s:%s' % (A[ai].name, st) for (ai, steps) in EPS[e] for st in steps if st != 'nosuchstep'))))
         g = AttackGraph(lg, m)
         if second:
             other = AttackGraph(lg, m)          # a later graph generated from the same model must not interfere
